@@ -148,9 +148,88 @@ func (ex *Exec) evLock(mu Value, op string) {
 		return
 	}
 	kind := map[string]int{"Lock": evLock, "Unlock": evUnlock, "RLock": evRLock, "RUnlock": evRUnlock}[op]
+	if len(ex.opGors) > 0 {
+		ex.muAcquireRelease(p.cell, kind)
+	}
 	t := ex.curThread()
 	l.lastKey[t] = ""
 	l.events = append(l.events, event{thread: t, kind: kind, mu: p.cell, where: ex.whereNow()})
+	if len(ex.opGors) > 0 && (kind == evUnlock || kind == evRUnlock) {
+		ex.maybePreempt()
+	}
+}
+
+const maxPreemptions = 2
+
+type muSt struct {
+	writer  bool
+	readers int
+}
+
+// otherOps: operation threads (and goroutines they spawned) that could run instead of the current one.
+func (ex *Exec) otherRunnable() []*gor {
+	var r []*gor
+	for _, g := range ex.sched.gs {
+		if g != ex.curG && g != ex.sched.main && !g.done && !g.blocked {
+			r = append(r, g)
+		}
+	}
+	return r
+}
+
+// muAcquireRelease gives mutexes their blocking semantics while operation threads are interleaved.
+func (ex *Exec) muAcquireRelease(mu *Cell, kind int) {
+	st := ex.muState[mu]
+	if st == nil {
+		st = &muSt{}
+		ex.muState[mu] = st
+	}
+	wait := func(busy func() bool) {
+		for busy() {
+			o := ex.otherRunnable()
+			if len(o) == 0 {
+				panic(pathEnd{kind: "deadlock", msg: "goroutine waits for a mutex that no runnable goroutine can release"})
+			}
+			ex.switchTo(o[0])
+		}
+	}
+	switch kind {
+	case evLock:
+		wait(func() bool { return st.writer || st.readers > 0 })
+		st.writer = true
+	case evRLock:
+		wait(func() bool { return st.writer })
+		st.readers++
+	case evUnlock:
+		st.writer = false
+	case evRUnlock:
+		if st.readers > 0 {
+			st.readers--
+		}
+	}
+}
+
+// maybePreempt: a scheduling point after a critical section.
+func (ex *Exec) maybePreempt() {
+	if ex.preemptions >= maxPreemptions {
+		return
+	}
+	o := ex.otherRunnable()
+	if len(o) == 0 {
+		return
+	}
+	if k := ex.Choose(len(o)+1, "preempt after critical section"); k > 0 {
+		ex.preemptions++
+		ex.switchTo(o[k-1])
+	}
+}
+
+// stressRounds: violations found under a non-default schedule cannot be replayed by one native run.
+func (ex *Exec) stressRounds() int {
+	if ex.preemptions > 0 {
+		return 3000
+	}
+	return 0
 }
 
 func (ex *Exec) evSpawn(g *gor) {
@@ -194,19 +273,53 @@ func registerEventAPI() {
 		l.gtag[ex.curG.id] = ""
 		return nil
 	}
-	// vConcurrently(f, g): symbolically f then g, each as its own logical thread
+	// vConcurrently(f, g, ...): every function is a logical operation thread run on its own
+	// goroutine of the cooperative scheduler. Schedules are explored at critical-section
+	// granularity (sufficient once the race queries show that all shared accesses are protected):
+	// which operation starts, and after each Unlock/RUnlock whether another operation thread gets
+	// the processor, with at most maxPreemptions such switches per path (context bound).
 	apiFns["vConcurrently"] = func(ex *Exec, fn *ssa.Function, a []Value) Value {
 		l := ex.evlog()
 		if l.watermark < 0 {
 			l.watermark = ex.idc
 		}
 		ex.evOn = true
-		g := ex.curG.id
-		for i, f := range ex.variadicArgs(a[0]) {
-			l.gtag[g] = string(rune('A' + i))
-			ex.callValue(f, nil, nil)
+		fns := ex.variadicArgs(a[0])
+		ex.opGors = nil
+		for i, f := range fns {
+			ex.spawn(f, nil, nil)
+			g := ex.sched.gs[len(ex.sched.gs)-1]
+			l.gtag[g.id] = string(rune('A' + i))
+			ex.opGors = append(ex.opGors, g)
 		}
-		l.gtag[g] = ""
+		first := ex.Choose(len(fns), "which operation starts")
+		if first > 0 {
+			ex.preemptions++
+		}
+		ex.switchTo(ex.opGors[first])
+		for {
+			var next *gor
+			live := 0
+			for _, g := range ex.opGors {
+				if !g.done {
+					live++
+					if !g.blocked && next == nil {
+						next = g
+					}
+				}
+			}
+			if live == 0 {
+				break
+			}
+			if next == nil {
+				next = ex.pickRunnable(ex.curG)
+			}
+			if next == nil {
+				panic(pathEnd{kind: "deadlock", msg: "operation threads are blocked for ever"})
+			}
+			ex.switchTo(next)
+		}
+		ex.opGors = nil
 		return nil
 	}
 	apiFns["vRaceCheck"] = func(ex *Exec, fn *ssa.Function, a []Value) Value {
@@ -435,6 +548,103 @@ func (ex *Exec) raceCheck(name string) {
 			h.mu.Unlock()
 		}
 	}
+	// ------------------------------------------------------------------------------------------
+	// Atomicity (the premise of the linearizability argument): two operations must be conflict-
+	// serializable, i.e. there is no schedule in which an access of A precedes a conflicting access
+	// of B while another access of B precedes a conflicting access of A. With every operation's
+	// shared accesses inside one critical section this is unsat by mutual exclusion; an operation
+	// that checks in one critical section and acts in another admits the cycle.
+	type segKey struct{ thread, prev, next int }
+	segOf := func(i int) segKey { return segKey{l.events[i].thread, prevSync[i], nextSync[i]} }
+	opOf := func(i int) string { return l.threads[l.events[i].thread].tag }
+	type confl struct{ a, b int } // representative events: a in op X, b in op Y, conflicting on one location
+	conflicts := map[[2]string][]confl{}
+	seenConf := map[string]bool{}
+	for _, k := range keys {
+		as := byLoc[k]
+		for _, x := range as {
+			for _, y := range as {
+				if x.i == y.i || (!x.write && !y.write) {
+					continue
+				}
+				ox, oy := opOf(x.i), opOf(y.i)
+				if ox == oy || ox == "" || oy == "" {
+					continue
+				}
+				key := fmt.Sprintf("%v/%v", segOf(x.i), segOf(y.i))
+				if seenConf[key] {
+					continue
+				}
+				seenConf[key] = true
+				conflicts[[2]string{ox, oy}] = append(conflicts[[2]string{ox, oy}], confl{x.i, y.i})
+			}
+		}
+	}
+	var opPairs [][2]string
+	for k := range conflicts {
+		if k[0] < k[1] {
+			opPairs = append(opPairs, k)
+		}
+	}
+	sort.Slice(opPairs, func(i, j int) bool { return opPairs[i][0]+opPairs[i][1] < opPairs[j][0]+opPairs[j][1] })
+	tv := []*Term{tt.Var("ts!"+name+"!a1", W), tt.Var("ts!"+name+"!b1", W), tt.Var("ts!"+name+"!b2", W), tt.Var("ts!"+name+"!a2", W)}
+	order := func(x, y int, tx, ty *Term) []*Term {
+		ex1, ey := l.events[x], l.events[y]
+		if ex1.thread != ey.thread || segOf(x) == segOf(y) {
+			return nil
+		}
+		if x < y {
+			return []*Term{tt.Ult(tx, ty)}
+		}
+		return []*Term{tt.Ult(ty, tx)}
+	}
+	atomReported := map[string]bool{}
+	for _, pk := range opPairs {
+		ab := conflicts[pk] // a in A, b in B
+		for _, c1 := range ab {
+			for _, c2 := range ab {
+				// A.a1 -> B.b1 and B.b2 -> A.a2
+				a1, b1, b2, a2 := c1.a, c1.b, c2.b, c2.a
+				if segOf(a1) == segOf(a2) && segOf(b1) == segOf(b2) {
+					continue // one segment each: a data race if unprotected, excluded by the lock otherwise
+				}
+				h.mu.Lock()
+				h.Obligations++
+				h.mu.Unlock()
+				q := append([]*Term(nil), cons...)
+				q = append(q, between(tv[0], a1)...)
+				q = append(q, between(tv[1], b1)...)
+				q = append(q, between(tv[2], b2)...)
+				q = append(q, between(tv[3], a2)...)
+				q = append(q, tt.Ult(tv[0], tv[1]), tt.Ult(tv[2], tv[3]))
+				q = append(q, order(a1, a2, tv[0], tv[3])...)
+				q = append(q, order(b1, b2, tv[1], tv[2])...)
+				r, _ := ex.solver.Check(q, false, nil, nil)
+				switch r {
+				case Unsat:
+					h.mu.Lock()
+					h.Discharged++
+					h.mu.Unlock()
+				case Sat:
+					msg := fmt.Sprintf("operations %s and %s are not conflict-serializable: %s (%s) can precede %s (%s) while %s (%s) precedes %s (%s)",
+						pk[0], pk[1], l.events[a1].where, pk[0], l.events[b1].where, pk[1], l.events[b2].where, pk[1], l.events[a2].where, pk[0])
+					short := pk[0] + "/" + pk[1]
+					if !atomReported[short] {
+						atomReported[short] = true
+						ex.reportConcurrencyKind(h, "operations-serializable@"+name, "atomicity", msg)
+					} else {
+						h.mu.Lock()
+						h.Discharged++ // same operation pair, already reported once
+						h.mu.Unlock()
+					}
+				default:
+					h.mu.Lock()
+					h.Inconcl["solver unknown on serializability query"]++
+					h.mu.Unlock()
+				}
+			}
+		}
+	}
 	h.mu.Lock()
 	if len(h.Samples) < 6 {
 		h.Samples = append(h.Samples, fmt.Sprintf("race encoding %s: %d events (%d synchronisation events with timestamp variables), %d logical threads, %d critical sections, %d segment pairs queried", name, n, len(ts), len(l.threads), len(secs), len(cands)))
@@ -443,6 +653,10 @@ func (ex *Exec) raceCheck(name string) {
 }
 
 func (ex *Exec) reportConcurrency(h *Harness, tag, msg string) {
+	ex.reportConcurrencyKind(h, tag, "race", msg)
+}
+
+func (ex *Exec) reportConcurrencyKind(h *Harness, tag, kind, msg string) {
 	r := ex.runner
 	// known-finding regions apply as for assertions
 	listed := ex.knownRegionTerms(r)
@@ -459,7 +673,7 @@ func (ex *Exec) reportConcurrency(h *Harness, tag, msg string) {
 		m = ex.realize(nil, m)
 	}
 	in, order := ex.modelInputs(m)
-	v := &Violation{Harness: h.Name, Tag: tag, Kind: "race", Msg: msg, Inputs: in, Order: order, Region: inKnown}
+	v := &Violation{Harness: h.Name, Tag: tag, Kind: kind, Msg: msg, Inputs: in, Order: order, Region: inKnown, Stress: ex.stressRounds()}
 	h.mu.Lock()
 	h.Obligations++
 	if inKnown != "" {
